@@ -462,7 +462,8 @@ def _tensors(tier, seed, signed):
                     else:
                         out.append(dict(shape=sh, ranks=rk, pat=pat, seed=seed, pairs=(d == 2), unsert=0.0))
                         out.append(dict(shape=sh, ranks=rk, pat=pat, seed=seed, pairs=False, unsert=1e-10))
-    for sh, rk in (([8, 9], [1, 3, 1]), ([2, 2, 2, 2, 2], [1, 2, 2, 2, 2, 1]), ([20, 3], [1, 2, 1]), ([3, 16], [1, 3, 1]), ([4, 4, 4], [1, 4, 4, 1])):
+    for sh, rk in (([8, 9], [1, 3, 1]), ([2, 2, 2, 2, 2], [1, 2, 2, 2, 2, 1]), ([20, 3], [1, 2, 1]), ([3, 16], [1, 3, 1]), ([4, 4, 4], [1, 4, 4, 1]),
+                   ([3, 2, 3], [1, 4, 2, 1]), ([2, 2, 2, 2], [1, 2, 4, 2, 1]), ([3, 2, 2, 3], [1, 2, 4, 2, 1]), ([2, 3, 2], [1, 2, 6, 1])):    # ranks >= mode size x next rank
         for pat in (['gen', 'nneg'] if signed else ['genpos', 'sq', 'zslice']):
             if signed:
                 out.append(dict(shape=sh, ranks=rk, pat=pat, seed=seed))
@@ -480,6 +481,9 @@ def strata(tier, seed):
     ls = [dict(n=list(n), ms=list(range(1, 13)), seeds=[0, 1, 2, 3, 4], script_m=4 if len(n) == 1 else 0)
           for d in (1, 2, 3) for n in itertools.product(range(1, top + 1), repeat=d)]
     yield Stratum('lhs', ls, 'lhs', seq=(tier == 'quick'), size=len(ls), chunk=4, bounds={'n': '{1..%d}^d, d<=3' % top, 'm': '1..12'})
+    ktop = 64 if tier == 'quick' else 200
+    lb = [dict(n=[k] if k % 2 else [k, 5], ms=sorted({k - 1, k, k + 1, 2 * k, 2 * k + 1, 3 * k}), seeds=[0, 1]) for k in range(5, ktop + 1)]
+    yield Stratum('lhs: every mode size up to %d, sample counts around its multiples' % ktop, lb, 'lhs', size=len(lb), chunk=4, bounds={'n': [5, ktop]})
     ms = [dict(n=[4] * 34, ms=[1], rs=[2, 3], seeds=[0]), dict(n=[10] * 21, ms=[1], rs=[2], seeds=[1]), dict(n=[2] * 70, ms=[2], rs=[2], seeds=[0]),
           dict(n=[40, 50, 60], ms=[3], rs=[5], seeds=[0]), dict(n=[300, 7], ms=[3], rs=[2], seeds=[0]),
           dict(n=[3, 2, 3], ms=[1], rs=[2], seeds=[0], many=20001), dict(n=[2, 3], ms=[1], rs=[2], seeds=[0], many=40001)] + \
